@@ -38,6 +38,10 @@ class CallbackRaised(Exception):
 def engine_fault(e):
     """True if exception `e` originates in the verifier (pyvc / z3 / sympy), not in the code under contract."""
     import traceback
+    if isinstance(e, AttributeError):
+        from .core import _is_harness_obj
+        if _is_harness_obj(getattr(e, "obj", None)):
+            return True         # the code asked a harness stub for something the stub does not model: a harness gap
     tb = traceback.extract_tb(e.__traceback__)
     if not tb:
         return True
@@ -779,10 +783,16 @@ class _V:
         try:
             return self._d[k]
         except KeyError:
-            raise AttributeError(k)
+            # the invariant talks about a local variable the loop no longer has: the contract has to be re-anchored
+            raise Undecided("contract not anchored: the loop invariant refers to the local variable %r, which does not exist "
+                            "in the current source of the loop" % k)
 
     def __getitem__(self, k):
-        return self._d[k]
+        try:
+            return self._d[k]
+        except KeyError:
+            raise Undecided("contract not anchored: the loop invariant refers to the local variable %r, which does not exist "
+                            "in the current source of the loop" % k)
 
     def get(self, k, default=None):
         return self._d.get(k, default)
@@ -877,9 +887,11 @@ class Explorer:
     def verdict(self, name, replay=None):
         rs = self.results.get(name)
         if not rs:
-            raise Refuted("obligation-not-generated",
-                          "no path of %s reached the program point of obligation %r "
-                          "(structure of the function no longer matches its contract)" % (self.fn_label, name))
+            # the contract (loop ordinal, invariant variables, program point) could not be anchored in the current source:
+            # that is a statement about the CONTRACT, not about the property - undecided, never a violation
+            raise Undecided("contract not anchored: no path of %s reached the program point of obligation %r (the structure "
+                            "of the function no longer matches its contract; the contract has to be re-anchored)"
+                            % (self.fn_label, name))
         sat = [r for r in rs if r[0] == "sat"]
         unk = [r for r in rs if r[0] == "unknown"]
         if sat:
